@@ -51,6 +51,15 @@ class ProgError(Exception):
         return 0 if 'falsy' in str(self.tag) else 1
 
 
+class UnprintableError(ProgError):
+    """An exception that has no printable form: handling it must not depend on printing it."""
+
+    def __str__(self):
+        raise IndexError('this exception has no printable form')
+
+    __repr__ = __str__
+
+
 class Recorder:
     """Single logical clock for everything observed in one execution."""
 
